@@ -6,41 +6,31 @@ L6 (i) — the LEXER of the graph-file readers of cnfgen/graphs.py
 readers do with *characters* is here: `readlines()`, `l[0] == 'c'`, `strip()`, `split()`,
 `':' in l`, `l.split(':')`, Python `int()` on ASCII tokens.  What the readers do with the
 *values* (the state machines) is in `IO/GraphFmt.lean`; the theorems are about that layer.
-The lexer is validated by the correspondence harness only (it is compared with Python on
-every `rgraph` request), not proven.
+On the texts the writers of `IO/GraphFmt.lean` emit the lexer is PROVEN to return the rows of the
+row-level writers (`Lemmas/IOGraphText*.lean`, `Props/C14/Text.lean`); on every other text it is
+compared with Python (every `rgraph` / `rgraphf` request of the harness).
 
 Texts are `List Char` (code points).  ASCII fragment: Python's `int()` also accepts
 non-ASCII decimal digits; those are outside the model (the harness generates ASCII texts).
 A `StringIO` does no newline translation; a text-mode file translates "\r\n" and "\r" to
-"\n" before the reader sees the text (`universalNL`).  Import-free.
-
-Self-contained on purpose (worker C06 writes `IO/Lex.lean` for DIMACS CNF in parallel).
+"\n" before the reader sees the text (`universalNL`).  No Mathlib; builds on `IO/Lex.lean`
+(character classes, `split()`, `strip()`, digit scanner, decimal printer are shared with the
+formula formats).
 -/
+import CnfgenModel.IO.Lex
 namespace Cnfgen.GraphLex
 
 abbrev Str := List Char
 
-/-- ASCII code points for which `str.isspace()` is true — what `strip()` / `split()` remove.
-(non-ASCII spaces are listed too so that a stray one is not glued to a token) -/
-def wsCodes : List Nat :=
-  [9, 10, 11, 12, 13, 28, 29, 30, 31, 32, 133, 160, 5760, 8192, 8193, 8194, 8195, 8196, 8197,
-   8198, 8199, 8200, 8201, 8202, 8232, 8233, 8239, 8287, 12288]
-
-def isSpace (c : Char) : Bool := wsCodes.contains c.toNat
+/-! The character classes, `strip()`, `split()`, the digit scanner of `int()` and the decimal printer
+are the ones of the formula lexer `IO/Lex.lean` (same constants, so the lemmas of
+`Lemmas/IOText*.lean` apply to the graph formats as they are). -/
+export Cnfgen.IO (wsCodes isSpace universalNLAux universalNL splitWS strip digit? scanDigits maxStrDigits
+  digitChar natStrAux natStr join)
 
 /-- what `int()` itself strips from an ASCII string: C `isspace` (`" 5\x1f"` is rejected
 although `"\x1f".isspace()`) -/
 def isIntSpace (c : Char) : Bool := [9, 10, 11, 12, 13, 32].contains c.toNat
-
-/-- universal-newline translation done by text-mode `open()` on reading -/
-def universalNLAux : Bool → Str → Str
-  | _, [] => []
-  | prevCR, c :: rest =>
-    if c = '\r' then '\n' :: universalNLAux true rest
-    else if c = '\n' then (if prevCR then universalNLAux false rest else '\n' :: universalNLAux false rest)
-    else c :: universalNLAux false rest
-
-def universalNL (s : Str) : Str := universalNLAux false s
 
 /-- `readlines()`: the lines *with* their terminator; no line for an empty tail -/
 def readlinesAux : Str → Str → List Str
@@ -49,22 +39,6 @@ def readlinesAux : Str → Str → List Str
     if c = '\n' then (c :: cur).reverse :: readlinesAux cs [] else readlinesAux cs (c :: cur)
 
 def readlines (s : Str) : List Str := readlinesAux s []
-
-/-- `s.strip()` -/
-def strip (s : Str) : Str := ((s.dropWhile isSpace).reverse.dropWhile isSpace).reverse
-
-/-- `s.split()` -/
-def splitWS : Str → List Str
-  | [] => []
-  | c :: cs =>
-    if isSpace c then splitWS cs
-    else match cs with
-      | [] => [[c]]
-      | d :: _ =>
-        if isSpace d then [c] :: splitWS cs
-        else match splitWS cs with
-          | t :: ts => (c :: t) :: ts
-          | [] => [[c]]
 
 /-- `s.split(sep)` for a one-character separator (never empty) -/
 def splitOn (sep : Char) : Str → List Str
@@ -75,27 +49,16 @@ def splitOn (sep : Char) : Str → List Str
       | l :: ls => (c :: l) :: ls
       | [] => [[c]]
 
-def digit? (c : Char) : Option Nat :=
-  if 48 ≤ c.toNat ∧ c.toNat ≤ 57 then some (c.toNat - 48) else none
-
-/-- `digit (_? digit)*`; `prev` = the previous character was a digit -/
-def scanDigits : Nat → Bool → Str → Option Nat
-  | acc, prev, [] => if prev then some acc else none
-  | acc, prev, c :: cs =>
-    if c = '_' then (if prev then scanDigits acc false cs else none)
-    else match digit? c with
-      | some d => scanDigits (acc * 10 + d) true cs
-      | none => none
-
-/-- ASCII fragment of Python's `int(s)`; `none` = ValueError.  (CPython's 4300-digit limit
-is also a ValueError; texts that long are outside the harness' range.) -/
+/-- ASCII fragment of Python's `int(s)`; `none` = ValueError: optional sign, decimal digits with single
+`_` between them, and CPython's limit of `maxStrDigits` = 4300 digits (`sys.get_int_max_str_digits()`,
+leading zeros count): beyond it `int()` raises ValueError too. -/
 def pyInt? (s : Str) : Option Int :=
   let s := ((s.dropWhile isIntSpace).reverse.dropWhile isIntSpace).reverse
   let nb : Bool × Str := match s with
     | c :: r => if c = '-' then (true, r) else if c = '+' then (false, r) else (false, s)
     | [] => (false, [])
-  match scanDigits 0 false nb.2 with
-  | some v => some (if nb.1 then -(v : Int) else (v : Int))
+  match scanDigits 0 0 false nb.2 with
+  | some (v, nd) => if nd > maxStrDigits then none else some (if nb.1 then -(v : Int) else (v : Int))
   | none => none
 
 /-! ### kthlist -/
@@ -188,19 +151,6 @@ def lexMatrix (s : Str) : List MRow := (readlines s).map lexMatrixLine
 
 /-! ### printing -/
 
-def digitChar : Nat → Char
-  | 0 => '0' | 1 => '1' | 2 => '2' | 3 => '3' | 4 => '4'
-  | 5 => '5' | 6 => '6' | 7 => '7' | 8 => '8' | _ => '9'
-
-/-- decimal digits of `n` in front of `acc` (`fuel > n` is plenty) -/
-def natStrAux : Nat → Nat → Str → Str
-  | 0, _, acc => acc
-  | f + 1, n, acc =>
-    if n < 10 then digitChar n :: acc else natStrAux f (n / 10) (digitChar (n % 10) :: acc)
-
-/-- `str(n)` -/
-def natStr (n : Nat) : Str := natStrAux (n + 1) n []
-
 /-- `s.isdigit()` on the ASCII fragment: non-empty, only `0..9` -/
 def isDigitStr (s : Str) : Bool := !s.isEmpty && s.all (fun c => (digit? c).isSome)
 
@@ -225,10 +175,5 @@ def nameLines (name : Str) : List Str :=
   match splitlines name with
   | [] => [[]]
   | l => l
-
-def join (sep : Str) : List Str → Str
-  | [] => []
-  | [x] => x
-  | x :: xs => x ++ sep ++ join sep xs
 
 end Cnfgen.GraphLex
